@@ -239,9 +239,21 @@ def cmd_tests(par):
     print("survivors:", sum(1 for x in ms if x.get("tests") == "survived"), "of", len(ms))
 
 
+CHK = os.path.join(WORK, "checks.json")       # results of the checks phase (separate file: phases may overlap)
+
+
+def mkey(m):
+    return "%s:%d:%s:%s:%s:%d" % (m["file"], m["line"], m["kind"], m["old"], m["new"], m["a"])
+
+
+def load_chk():
+    return json.load(open(CHK)) if os.path.exists(CHK) else {}
+
+
 def cmd_checks(limit, files=None):
     ms = load()
-    todo = [m for m in ms if m.get("tests") == "survived" and "checks" not in m and (not files or m["file"] in files)]
+    chk = load_chk()
+    todo = [m for m in ms if m.get("tests") == "survived" and mkey(m) not in chk and (not files or m["file"] in files)]
     random.Random(7).shuffle(todo)
     todo = todo[:limit]
     root = os.path.join(WORK, "c0")
@@ -253,7 +265,7 @@ def cmd_checks(limit, files=None):
         verdict, by = "survived", None
         for pid in PROPS[m["file"]]:
             p = subprocess.run(["/verif/check", pid], cwd="/verif", stdout=subprocess.PIPE, stderr=subprocess.STDOUT,
-                               env=dict(os.environ, VERIF_REPO=root, VERIF_NO_EVIDENCE="1",
+                               env=dict(os.environ, VERIF_REPO=root, VERIF_NO_EVIDENCE="1", VERIF_SKIP_MC="1",
                                         VERIF_REPLAY_DIR=os.path.join(WORK, "replays")), timeout=3600)
             out = p.stdout.decode(errors="replace")
             if "VIOLATION property=" in out:
@@ -262,8 +274,9 @@ def cmd_checks(limit, files=None):
             if p.returncode == 2 or "MACHINERY" in out:
                 verdict, by = "machinery", pid + ":" + out.strip().splitlines()[-1][:200]
                 break
-        m["checks"], m["checks_by"] = verdict, by
-        save(ms)
+        chk[mkey(m)] = [verdict, by]
+        json.dump(chk, open(CHK + ".tmp", "w"))
+        os.replace(CHK + ".tmp", CHK)
         shutil.rmtree(os.path.join(WORK, "replays"), ignore_errors=True)
         print(n + 1, "/", len(todo), m["file"], m["line"], m["kind"], repr(m["old"]), "->", repr(m["new"]), verdict, by, flush=True)
     shutil.rmtree(root, ignore_errors=True)
@@ -271,6 +284,10 @@ def cmd_checks(limit, files=None):
 
 def cmd_report():
     ms = load()
+    chk = load_chk()
+    for m in ms:
+        if mkey(m) in chk:
+            m["checks"], m["checks_by"] = chk[mkey(m)]
     from collections import Counter
     print("mutants", len(ms), "tests:", Counter(m.get("tests") for m in ms), "checks:", Counter(m.get("checks") for m in ms))
     for m in ms:
